@@ -166,3 +166,34 @@ Check (eq_refl : zrec_read = fun fp z =>
                  su_max := f32_of_bits (bits_of_f32 (to_f32 fp (su_max (z_sum z))));
                  su_sum := f32_of_bits (bits_of_f32 (to_f32 fp (su_sum (z_sum z))));
                  su_sumsq := f32_of_bits (bits_of_f32 (to_f32 fp (su_sumsq (z_sum z)))) |} |}).
+
+(* ---- IEEE = exact on a checkable domain (appended; Proofs/FloatExact.v, Proofs/FloatExactZoom.v; the grid
+   definitions are pinned in C06Pins.v) ---- *)
+From BT Require Proofs.FloatExact Proofs.FloatExactZoom Proofs.C06FileFloat.
+Check (C07.C07_stats_ieee_on_grid : forall E G ips size chrom len vals st, 1 <= size -> wf_vals len vals ->
+  FloatExact.grid_ok E G -> Forall (FloatExact.vgrid E G) vals ->
+  (FloatExact.gabs E G vals < FloatExact.P53)%Z -> (FloatExact.gsq E G vals < FloatExact.P53)%Z ->
+  zoom_chrom ieee ips size chrom vals zstate0 = Ok st ->
+  Forall (fun r => let cs := contribs (z_start r) (z_end r) vals in
+            exact_stats r cs /\
+            FloatExact.gval E G (su_sum (z_sum r)) (FloatExact.ksum plen (fun p => FloatExact.gk E G (p_val p)) cs) /\
+            FloatExact.gval (E + E) (G + G) (su_sumsq (z_sum r)) (FloatExact.ksq plen (fun p => FloatExact.gk E G (p_val p)) cs))
+         (concat (zs_out st))).
+Check (C07.C07_ieee_exact_records : forall E G ips size chrom len vals st st', 1 <= size -> wf_vals len vals ->
+  FloatExact.grid_ok E G -> Forall (FloatExact.vgrid E G) vals ->
+  (FloatExact.gabs E G vals < FloatExact.P53)%Z -> (FloatExact.gsq E G vals < FloatExact.P53)%Z ->
+  zoom_chrom ieee ips size chrom vals zstate0 = Ok st -> zoom_chrom exact ips size chrom vals zstate0 = Ok st' ->
+  Forall (fun r => forall r', In r' (concat (zs_out st')) -> z_start r' = z_start r -> z_end r' = z_end r ->
+            su_items (z_sum r) = su_items (z_sum r') /\ su_bases (z_sum r) = su_bases (z_sum r') /\
+            su_min (z_sum r) = su_min (z_sum r') /\ su_max (z_sum r) = su_max (z_sum r') /\
+            C06FileFloat.same_num (su_sum (z_sum r)) (su_sum (z_sum r')) /\
+            C06FileFloat.same_num (su_sumsq (z_sum r)) (su_sumsq (z_sum r')))
+         (concat (zs_out st))).
+Check (C07.C07_stats_ieee_in_domain : forall ips size chrom len vals st, 1 <= size -> wf_vals len vals ->
+  FloatExact.in_exact_domain vals = true ->
+  zoom_chrom ieee ips size chrom vals zstate0 = Ok st ->
+  Forall (fun r => exact_stats r (contribs (z_start r) (z_end r) vals)) (concat (zs_out st))).
+Check (C07.C07_stat_read_on_grid : forall E G x k, (E <= 0 -> E <= G -> -149 <= G <= 104 -> Z.abs k < 2 ^ 24 ->
+  FloatExact.gval E G x k -> C06FileFloat.same_num (stat_read ieee x) x)%Z).
+Check (eq_refl : stat_read = fun fp x => f32_of_bits (bits_of_f32 (to_f32 fp x))).
+Check (eq_refl : plen = fun p => p_end p - p_start p).
